@@ -566,6 +566,18 @@ func genBe(r *hx.Rng, tier string, st *hx.Stats, slow *int, b *budgets) string {
 		retry = "no"
 	}
 	fails := []string{"4", "5", "H", "9"}
+	if backend == "otlp" {
+		fails = append(fails, "P", "P") // 200 with a partial-success body that rejects data points: an error, never retried
+	}
+	// "a failed flush does not prevent the following flushes": a quarter of the uncancelled cases flush two or three
+	// times through the same backend instance (same scripts each time; every repetition must end the same way)
+	if cancel == "none" && reps == 1 && r.Chance(1, 4) {
+		reps = r.Range(2, 3)
+	}
+	allP := backend == "otlp" && reps > 1 && r.Chance(1, 2)
+	if allP && nb < 4 {
+		nb = r.Range(4, 6)
+	}
 	scripts := make([]string, nb)
 	anyFail := false
 	for i := range scripts {
@@ -599,6 +611,12 @@ func genBe(r *hx.Rng, tier string, st *hx.Stats, slow *int, b *budgets) string {
 			}
 		}
 	}
+	if allP {
+		for i := range scripts {
+			scripts[i] = "P"
+		}
+		anyFail = true
+	}
 	if backend == "stdout" || backend == "null" {
 		scripts, retry = nil, "no"
 		if cancel != "none" && cancel != "post" {
@@ -613,6 +631,9 @@ func genBe(r *hx.Rng, tier string, st *hx.Stats, slow *int, b *budgets) string {
 	st.Hit("be:retry=" + retry)
 	st.Hit("be:cancel=" + strings.TrimRight(cancel, "0123456789"))
 	st.Hit(fmt.Sprintf("be:batches=%d", len(scripts)))
+	if reps > 1 && reps < 64 {
+		st.Hit("be:repeated-flushes")
+	}
 	if anyFail {
 		st.Hit("be:some-batch-fails")
 	}
@@ -668,7 +689,7 @@ func gen(args []string) {
 	// fixed socket scenarios (few: they cost real seconds and depend on the OS)
 	socks := []string{"sock graphite up", "sock statsd-tcp up", "sock statsd-udp up", "sock graphite downup", "sock statsd-tcp down-cancel",
 		"sock graphite down-shutdown", "sock graphite precancel", "sock statsd-tcp precancel", "sock graphite down-cancel", "sock statsd-tcp downup", "sock statsd-tcp down-shutdown", "sock statsd-udp precancel",
-		"sock statsd-udp big", "sock graphite big", "sock statsd-tcp big"}
+		"sock statsd-udp big", "sock graphite big", "sock statsd-tcp big", "sock statsd-udp edge-down-cancel"}
 	ns := 8
 	if tier == "thorough" {
 		ns = len(socks)
